@@ -5,7 +5,7 @@
     the laws of the point codecs are hypotheses (trusted: bls12_381), the scalar codec's are proved. *)
 From Coq Require Import ZArith List Bool Lia.
 From ZK Require Import Model.Field Model.Zq Model.QBls Model.Ids Model.Amount Model.Wire Model.Codecs
-  Proofs.WireProofs Proofs.CodecsProofs.
+  Model.Base64 Proofs.WireProofs Proofs.CodecsProofs Proofs.Base64Proofs.
 Import ListNotations.
 Open Scope Z_scope.
 
@@ -71,6 +71,32 @@ Theorem C15_decoded_signature_well_formed : forall bs s rest, Forall is_byte bs 
 Proof. exact (decoded_signature_well_formed K c_g1 H1). Qed.
 End Types.
 
+(** printing and parsing a channel id (base64, standard alphabet, padded): parse inverts print on every 32-byte id,
+    printing is injective, the text has 44 characters of the alphabet, a parsed id has 32 bytes, the encoding of any
+    other number of bytes is refused with that length, a text starting with a foreign character is refused *)
+Theorem C15_channel_id_print_parse : forall cid, Forall is_byte cid -> length cid = 32%nat -> cid_parse (cid_print cid) = CidOk cid.
+Proof. exact cid_print_parse. Qed.
+Theorem C15_base64_roundtrip_every_length : forall bs, Forall is_byte bs -> b64_decode (b64_encode bs) = Some bs.
+Proof. exact b64_roundtrip. Qed.
+Theorem C15_channel_id_print_injective : forall a b, Forall is_byte a -> Forall is_byte b -> cid_print a = cid_print b -> a = b.
+Proof. exact cid_print_injective. Qed.
+Theorem C15_channel_id_text_shape : forall cid, Forall is_byte cid -> length cid = 32%nat ->
+  length (cid_print cid) = 44%nat /\ Forall b64_alphabet (cid_print cid).
+Proof. intros cid HF HL. split; [now apply cid_print_length | now apply b64_encode_alphabet]. Qed.
+Theorem C15_channel_id_parse_length : forall text bs, cid_parse text = CidOk bs -> length bs = 32%nat.
+Proof. exact cid_parse_ok_length. Qed.
+Theorem C15_channel_id_parse_other_length : forall bs, Forall is_byte bs -> length bs <> 32%nat ->
+  cid_parse (b64_encode bs) = CidIncorrectLength (Z.of_nat (length bs)).
+Proof. exact cid_parse_other_length. Qed.
+Theorem C15_channel_id_parse_foreign_character : forall c0 c1 c2 c3 rest, b64_val c0 = None ->
+  cid_parse (c0 :: c1 :: c2 :: c3 :: rest) = CidDecodeError.
+Proof. exact cid_parse_rejects_foreign_character. Qed.
+
+Example C15_channel_id_nonvacuous :
+  b64_encode [77; 97; 110] = [84; 87; 70; 117] /\ b64_encode [77; 97] = [84; 87; 69; 61] /\ b64_encode [77] = [84; 81; 61; 61] /\
+  b64_decode [84; 87; 70; 61] = None /\ cid_parse (cid_print (repeat 255 32)) = CidOk (repeat 255 32).
+Proof. vm_compute. auto. Qed.
+
 Example C15_nonvacuous :
   res_of (dec c_balance (Z_to_le 8 (2 ^ 63 - 1))) = Some (2 ^ 63 - 1, []) /\
   res_of (dec c_balance (Z_to_le 8 (2 ^ 63))) = None /\ res_of (dec c_balance (Z_to_le 8 (2 ^ 64 - 1))) = None /\
@@ -108,3 +134,11 @@ Print Assumptions C15_decoded_balance_in_range.
 Print Assumptions C15_decoded_nonce_not_close.
 Print Assumptions C15_decoded_signature_well_formed.
 Print Assumptions C15_nonvacuous.
+Print Assumptions C15_channel_id_print_parse.
+Print Assumptions C15_base64_roundtrip_every_length.
+Print Assumptions C15_channel_id_print_injective.
+Print Assumptions C15_channel_id_text_shape.
+Print Assumptions C15_channel_id_parse_length.
+Print Assumptions C15_channel_id_parse_other_length.
+Print Assumptions C15_channel_id_parse_foreign_character.
+Print Assumptions C15_channel_id_nonvacuous.
